@@ -159,9 +159,10 @@ fn build_case(case: &Case, argv: &[RE], world: &Arc<Mutex<World>>) -> Result<(Ru
         b = b.with_rule(Rule::new(format!("r{ri}"), BTreeMap::new(), tree.to_expr())).map_err(|e| e.to_string())?;
         trees.push(tree);
     }
-    for (n, c) in FUNCS {
-        b = b.with_function(probe(n, c, &h)).map_err(|e| e.to_string())?;
-    }
+    // c1 through with_function, c2 and n1 through the boxed entry point with_functions
+    b = b.with_function(probe(FUNCS[0].0, FUNCS[0].1, &h)).map_err(|e| e.to_string())?;
+    let boxed: Vec<Box<dyn UserFunction + Send + Sync + 'static>> = FUNCS[1..].iter().map(|(n, c)| Box::new(probe(n, *c, &h)) as Box<dyn UserFunction + Send + Sync + 'static>).collect();
+    b = b.with_functions(boxed).map_err(|e| e.to_string())?;
     Ok((b.build(), trees))
 }
 
